@@ -1,7 +1,7 @@
 (** C12 — malformed AML is rejected with an error, never a crash, hang or stray pointer.
     Statements only; every proof is [exact <lemma>] (Aml/LexProofs.v). *)
 From Coq Require Import NArith List.
-From FF Require Import Lib.Word Gen.Consts_device_acpi_aml Aml.Stream Aml.Lex Aml.LexProofs Aml.Tree Aml.TreeSpec Aml.Parser Aml.ParserProofs Aml.ParserProofsTop Aml.ParserTotalFirst Aml.ParserTotalConn Aml.ParserTotalTop Aml.ParserTotalNonNamed Aml.ParserTotalCalls Aml.ParserTotalReloc Aml.ParserTotalMerge Aml.ParserTotalResolve Aml.ParserTotalBase Aml.ParserTotalLex Aml.ParserTotalTree Aml.ParserTotalDefer Aml.ParserTotalDeferW Aml.ParserTotalDeferV Aml.ParserTotalTyped.
+From FF Require Import Lib.Word Gen.Consts_device_acpi_aml Aml.Stream Aml.Lex Aml.LexProofs Aml.Tree Aml.TreeSpec Aml.Parser Aml.ParserProofs Aml.ParserProofsTop Aml.ParserTotalFirst Aml.ParserTotalConn Aml.ParserTotalTop Aml.ParserTotalNonNamed Aml.ParserTotalCalls Aml.ParserTotalReloc Aml.ParserTotalMerge Aml.ParserTotalResolve Aml.ParserTotalBase Aml.ParserTotalLex Aml.ParserTotalTree Aml.ParserTotalDefer Aml.ParserTotalDeferW Aml.ParserTotalDeferV Aml.ParserTotalTyped Aml.ParserTotalShape Aml.ParserTotalChain.
 Import ListNotations.
 Local Open Scope N_scope.
 
@@ -512,3 +512,86 @@ Theorem C12_parse_total_partial_typed_deferred :
                  exists tbl sl, o_value o = Some (VBytes tbl sl)).
 Proof. exact parseDeferredBlocks_typed. Qed.
 Print Assumptions C12_parse_total_partial_typed_deferred.
+
+(** [parse_total_partial] (15), passes chained: EVERYTHING ParseAML does after connectNamedObjArgs ([parse_rest]: the resolve
+    loop and, if it succeeds, the tail of the previous theorem - exactly as in parseAML_body, lemma parseAML_body_rest) never
+    panics from any state with: [R], valid opcode-table indexes, the reader and whole-parser invariants, an empty scope stack
+    (what parseObjectList leaves), a live parentless ScopeBlock root, the Scope-directive shape of
+    C12_parse_total_partial_nopanic_mergeScopeDirectives, [TM2] (every Method has two leading plain children - no deferred /
+    field-list / named row, not a Scope directive or ScopeBlock - the second carrying a number), [PEND] (every pending deferred
+    object of the current table has a parent and is not a name-path-or-call object), the []byte typing of the name-path-or-call
+    objects, and room in the pool for one block per pool slot (lp + lp * (8 * len + 3) + 4 <= 2^32 - 1: a memory bound, quadratic
+    and generous).  New here: the resolve loop PRESERVES TM2 and PEND (merge moves objects between ScopeBlocks only and frees
+    childless objects that are a Scope directive or a child of one; a relocated object has a named row, so it is none of a
+    Method's two leading children, and only the value of its own first child is rewritten), it leaves reader, stacks and pool
+    size alone, and the count [dcnt] the walk theorem needs EXISTS for every live object and is bounded by the pool size
+    (induction over the forest by depth; the subtrees of two siblings are disjoint).  When [parse_rest] returns, [R], valid
+    indexes and slices-inside hold.  Fuel exhaustion is not excluded.  NOT derived: that passes 1-2 establish the directive
+    shape, TM2 and PEND. *)
+Theorem C12_parse_total_partial_nopanic_rest :
+  forall (tbls : list (list N)) (fuel : nat) (s : pstate) (g : ghost),
+    R (p_tree s) g ->
+    (forall i o, TreeSpec.get (p_tree s) i = Some o -> o_opcode o <> opFreed -> opInfo (o_infoIndex o) <> None) ->
+    rok (p_r s) -> p_scopeStack s = [] -> Inv tbls s ->
+    glive g 0 -> groot g 0 -> is_sb s 0 ->
+    tyS NoX (p_tables s) (p_handle s) (p_tree s) g ->
+    TM2 (p_tree s) g -> PEND s g ->
+    (forall i o, TreeSpec.get (p_tree s) i = Some o -> o_opcode o <> opFreed -> o_opcode o = aml_pOpIntNamePathOrMethodCall ->
+                 exists tbl sl, o_value o = Some (VBytes tbl sl)) ->
+    lp s + lp s * (8 * r_len (p_r s) + 3) + 4 <= InvalidIndex ->
+    match parse_rest fuel s with
+    | Ok (_, s') => exists g', R (p_tree s') g' /\
+        (forall i o, TreeSpec.get (p_tree s') i = Some o -> o_opcode o <> opFreed -> opInfo (o_infoIndex o) <> None) /\
+        pool_ok (p_tables s') (p_tree s')
+    | Panic => False
+    | OutOfFuel => True
+    end.
+Proof. exact rest_never_panics. Qed.
+Print Assumptions C12_parse_total_partial_nopanic_rest.
+
+(** the resolve loop alone keeps the typing facts of the later passes (and all its own invariants) *)
+Theorem C12_parse_total_partial_resolve_loop_keeps :
+  forall (fuel walkFuel : nat) (s : pstate) (g : ghost),
+    R (p_tree s) g ->
+    (forall i o, TreeSpec.get (p_tree s) i = Some o -> o_opcode o <> opFreed -> opInfo (o_infoIndex o) <> None) ->
+    pool_ok (p_tables s) (p_tree s) ->
+    glive g 0 -> groot g 0 -> is_sb s 0 ->
+    tyS NoX (p_tables s) (p_handle s) (p_tree s) g ->
+    TM2 (p_tree s) g -> PEND s g ->
+    (forall i o, TreeSpec.get (p_tree s) i = Some o -> o_opcode o <> opFreed -> o_opcode o = aml_pOpIntNamePathOrMethodCall ->
+                 exists tbl sl, o_value o = Some (VBytes tbl sl)) ->
+    match resolve_loop fuel walkFuel s with
+    | Ok (_, s') => exists g', R (p_tree s') g' /\
+        (forall i o, TreeSpec.get (p_tree s') i = Some o -> o_opcode o <> opFreed -> opInfo (o_infoIndex o) <> None) /\
+        pool_ok (p_tables s') (p_tree s') /\
+        glive g' 0 /\ groot g' 0 /\ is_sb s' 0 /\ tyS NoX (p_tables s') (p_handle s') (p_tree s') g' /\
+        TM2 (p_tree s') g' /\ PEND s' g' /\
+        (forall i o, TreeSpec.get (p_tree s') i = Some o -> o_opcode o <> opFreed -> o_opcode o = aml_pOpIntNamePathOrMethodCall ->
+                     exists tbl sl, o_value o = Some (VBytes tbl sl)) /\
+        p_r s' = p_r s /\ p_scopeStack s' = p_scopeStack s /\ lp s' = lp s
+    | Panic => False
+    | OutOfFuel => True
+    end.
+Proof. exact resolve_loop_keeps_shape. Qed.
+Print Assumptions C12_parse_total_partial_resolve_loop_keeps.
+
+(** the tail with [PEND] in place of the inductive count: the count exists and is at most the pool size *)
+Theorem C12_parse_total_partial_nopanic_tail_pend :
+  forall (tbls : list (list N)) (f4 pf f5 f6 : nat) (s : pstate) (g : ghost),
+    R (p_tree s) g ->
+    (forall i o, TreeSpec.get (p_tree s) i = Some o -> o_opcode o <> opFreed -> opInfo (o_infoIndex o) <> None) ->
+    rok (p_r s) -> Forall (glive g) (p_scopeStack s) -> Inv tbls s ->
+    glive g 0 -> groot g 0 -> TM NoX s g ->
+    (forall i o, TreeSpec.get (p_tree s) i = Some o -> o_opcode o <> opFreed -> o_opcode o = aml_pOpIntNamePathOrMethodCall ->
+                 exists tbl sl, o_value o = Some (VBytes tbl sl)) ->
+    PEND s g ->
+    lp s + lp s * (8 * r_len (p_r s) + 3) + 4 <= InvalidIndex ->
+    match parse_tail f4 pf f5 f6 s with
+    | Ok (_, s') => exists g', R (p_tree s') g' /\
+        (forall i o, TreeSpec.get (p_tree s') i = Some o -> o_opcode o <> opFreed -> opInfo (o_infoIndex o) <> None) /\
+        pool_ok (p_tables s') (p_tree s')
+    | Panic => False
+    | OutOfFuel => True
+    end.
+Proof. exact tail_never_panics_pend. Qed.
+Print Assumptions C12_parse_total_partial_nopanic_tail_pend.
